@@ -633,7 +633,8 @@ def horizon_guess(scn):
 
 def draw_chooser(rng, scn):
     return policy.draw_policy(rng, nthreads=scn['workers'] + 1,
-                              horizon=horizon_guess(scn))
+                              horizon=horizon_guess(scn),
+                              max_off=40 if scn.get('linemode') else 12)
 
 
 def run_seed(seed, gen_kwargs):
